@@ -18,7 +18,7 @@ import (
 // ---- C18: file configuration tracks the file, notifies observers and writes back safely ----
 
 func init() {
-	setTier("C18", 16000, 300, 400000, 1800)
+	setTier("C18", 60000, 300, 2000000, 1800)
 	levelOf["C18"] = "exploration"
 	ruleOf["C18"] = "one run = one seeded scenario (initial properties file, 1-5 external atomic edits at gaps from 1 ms to 10 s incl. several within one second, 1-3 reader tasks calling every typed getter, an observer, optional SetValues write-backs with prefix/suffix/exclude options) under one seeded schedule with ThreadSanitizer watching; for every write-back the file content visible at EVERY simulated-disk operation boundary (and between write chunks) is compared with {complete old, complete new} (crash-point enumeration); non-trivial = a context switch inside a getter/SetValues or a disk boundary enumerated; distinct = distinct fingerprint of (switch sequence, getter outcomes, journal)"
 	assumptionsOf["C18"] = []string{
